@@ -92,6 +92,8 @@ def op_term(o):
         return "FindNextMax %s" % hexf(float.fromhex(t[1]))
     if t[0] == 'M':
         return "MoveInternal %s" % hexf(float.fromhex(t[1]))
+    if t[0] == 'P':
+        return "MoveInternalPos %s" % hexf(float.fromhex(t[1]))
     if t[0] == 'B':
         return "MoveToBoundary"
     if t[0] == 'X':
@@ -191,3 +193,62 @@ def run_model_comparison(ctx, jobs, issues, delta):
                                "geometry": name, "geometry_file": "", "ray": ri, "start": p, "dir": d, "ops": ops,
                                "model": True})
     return nrec
+
+
+def run_unit_trace_comparison(ctx, jobs, issues):
+    """Tie for coq/C03/UnitWalk.v + UnitAbs.v: the abstract unit-level loop `nav_trace`
+    (crossing list of ALL surfaces of the unit, sense oracle, neighbour search) on the float
+    instance vs the real navigator's trace (F/B/X records of a `T n` op) in single-unit
+    geometries without background volume: sequence of (volume entered, distance from start).
+    jobs: (name, geometry, ray index, start, dir, harness records)"""
+    by_geo = {}
+    for name, g, ri, p, d, rr in jobs:
+        by_geo.setdefault(name, (g, []))[1].append((ri, p, d, rr))
+    exprs, keys = [], []
+    for name, (g, rays) in by_geo.items():
+        rl = "; ".join("run_unit_trace g %s %s" % (v3(p), v3(d)) for ri, p, d, rr in rays)
+        exprs.append("let g := %s in [%s]" % (geometry_term(g), rl))
+        keys.append(name)
+    if not exprs:
+        return 0
+    vals = ctx.coq_eval("unittrace", PRE, exprs, chunk=max(1, (len(exprs) + 1) // 2), timeout=900)
+    n = 0
+    for name, val in zip(keys, vals):
+        g, rays = by_geo[name]
+        for (ri, p, d, rr), (mtrace, mxs) in zip(rays, val):
+            # the navigator's sequence
+            real, t, bad = [], 0.0, False
+            for r in rr:
+                if not r.get("ok") or r.get("fail"):
+                    bad = bad or bool(r.get("fail"))
+                    continue
+                if r["op"] == "B":
+                    t += hf(r["moved"])
+                elif r["op"] == "X":
+                    real.append((r["stack"][0][1], t))
+            if bad:
+                ctx.count("unit-trace:navigator-failed")   # judged by the oracle differential
+                continue
+            ds = sorted(float(x) for x in mxs)
+            if any(b - a <= 1e-6 * (1.0 + abs(a)) for a, b in zip(ds, ds[1:])):
+                ctx.count("unit-trace:skipped-coincident-crossings")   # corner/edge hit: knife-edge
+                continue
+            why = None
+            if len(mtrace) < len(real):
+                why = "model trace shorter: model %d crossings, navigator %d" % (len(mtrace), len(real))
+            else:
+                for k, ((mv, md), (rv, rt)) in enumerate(zip(mtrace, real)):
+                    if mv != rv or not close(float(md), rt, rtol=1e-9, atol=1e-9):
+                        why = "crossing %d: model (vol %r, d %r) navigator (vol %r, d %r)" % (k, mv, md, rv, rt)
+                        break
+                    n += 1
+                    ctx.count("unit-trace:agree-crossing")
+            if why:
+                issues.append({"kind": "correspondence", "op_index": 0, "signature": None,
+                               "what": "abstract unit-level loop (UnitWalk.nav_trace) and navigator differ: " + why,
+                               "detail": {"why": why, "model_trace": repr(mtrace), "navigator_trace": repr(real)},
+                               "geometry": name, "geometry_file": "", "ray": ri, "start": p, "dir": d,
+                               "ops": ["T 60"], "model": True})
+            else:
+                ctx.count("unit-trace:agree-ray")
+    return n
